@@ -167,6 +167,9 @@ Definition dec_pcmpart (c : cfg) (s : dec) (b : dblock) (stp : Z) : Z * Z * Z :=
      if d_ret s =? -1 then thisC else prevC + Z.shiftr stp (hs c))
   else (d_centerW s, d_ret s, d_cur s).
 
+(* C: [int] pcm_returned += [long] value: the sum is truncated to 32 bits *)
+Definition wrap32 (x : Z) : Z := (x + 2147483648) mod 4294967296 - 2147483648.
+
 (* first granule position seen after (re)start: trim the beginning, or the
    end when the block is also the last one; returns (pcm_returned, pcm_current) *)
 Definition trim_first (h : Z) (count1 : Z) (b : dblock) (ret1 cur1 : Z) : Z * Z :=
@@ -178,7 +181,7 @@ Definition trim_first (h : Z) (count1 : Z) (b : dblock) (ret1 cur1 : Z) : Z * Z 
       let extra' := if extra >? avail then avail else extra in
       (ret1, cur1 - Z.shiftr extra' h)
     else
-      let r := ret1 + Z.shiftr extra h in
+      let r := wrap32 (ret1 + Z.shiftr extra h) in
       ((if r >? cur1 then cur1 else r), cur1)
   else (ret1, cur1).
 
